@@ -122,6 +122,10 @@ fn exec_step(engine: &mut Engine, step: &Step) -> Result<Vec<String>, (String, S
 
 fn child_main(engine: &mut Engine, case: &Case, res_fd: i32, out_fd: i32, err_fd: i32) -> ! {
     unsafe {
+        // fd 0 of the server is the protocol pipe: a script reading stdin must not touch it
+        let devnull = libc::open(b"/dev/null\0".as_ptr() as *const _, libc::O_RDONLY);
+        libc::dup2(devnull, 0);
+        libc::close(devnull);
         libc::dup2(out_fd, 1);
         libc::dup2(err_fd, 2);
         if case.mem_mb > 0 {
